@@ -241,6 +241,8 @@ impl SolutionState {
 
     /// Sets the value to solution state using the key type provided.
     pub fn set_value<K: 'static, V: 'static + Sync + Send>(&mut self, value: V) {
+        #[cfg(reinterpretcat_vrp_verif)]
+        verif_state::register::<K>();
         self.index.insert(TypeId::of::<K>(), Arc::new(value));
     }
 }
@@ -354,6 +356,8 @@ impl RouteState {
 
     /// Sets the value associated with the tour using `K` type as a key.
     pub fn set_tour_state<K: 'static, V: Send + Sync + 'static>(&mut self, value: V) {
+        #[cfg(reinterpretcat_vrp_verif)]
+        verif_state::register::<K>();
         self.index.insert(TypeId::of::<K>(), Arc::new(value));
     }
 
@@ -378,6 +382,8 @@ impl RouteState {
 
     /// Adds values associated with activities.
     pub fn set_activity_states<K: 'static, V: Send + Sync + 'static>(&mut self, values: Vec<V>) {
+        #[cfg(reinterpretcat_vrp_verif)]
+        verif_state::register::<K>();
         self.index.insert(TypeId::of::<K>(), Arc::new(values));
     }
 
@@ -513,5 +519,104 @@ impl<'a> MoveContext<'a> {
         activity_ctx: &'a ActivityContext,
     ) -> MoveContext<'a> {
         MoveContext::Activity { solution_ctx, route_ctx, activity_ctx }
+    }
+}
+
+/// Verification hook: renders the cached values of route and solution states (which live behind
+/// module-private type keys) as comparable text.
+#[cfg(reinterpretcat_vrp_verif)]
+mod verif_state {
+    use super::*;
+    use crate::models::common::{MultiDimLoad, SingleDimLoad};
+    use std::sync::Mutex;
+
+    type Index = HashMap<TypeId, Arc<dyn Any + Send + Sync>, BuildHasherDefault<FxHasher>>;
+
+    lazy_static::lazy_static! {
+        static ref NAMES: Mutex<HashMap<TypeId, &'static str>> = Mutex::new(HashMap::new());
+    }
+
+    pub(super) fn register<K: 'static>() {
+        NAMES.lock().unwrap().entry(TypeId::of::<K>()).or_insert_with(std::any::type_name::<K>);
+    }
+
+    fn render(value: &(dyn Any + Send + Sync)) -> String {
+        if let Some(v) = value.downcast_ref::<f64>() {
+            return format!("{v:?}");
+        }
+        if let Some(v) = value.downcast_ref::<usize>() {
+            return format!("{v}");
+        }
+        if let Some(v) = value.downcast_ref::<bool>() {
+            return format!("{v}");
+        }
+        if let Some(v) = value.downcast_ref::<String>() {
+            return v.clone();
+        }
+        if let Some(v) = value.downcast_ref::<Vec<f64>>() {
+            return format!("{v:?}");
+        }
+        if let Some(v) = value.downcast_ref::<Vec<usize>>() {
+            return format!("{v:?}");
+        }
+        if let Some(v) = value.downcast_ref::<Vec<(usize, usize)>>() {
+            return format!("{v:?}");
+        }
+        if let Some(v) = value.downcast_ref::<SingleDimLoad>() {
+            return format!("{v}");
+        }
+        if let Some(v) = value.downcast_ref::<MultiDimLoad>() {
+            return format!("{v}");
+        }
+        if let Some(v) = value.downcast_ref::<Vec<SingleDimLoad>>() {
+            return format!("{:?}", v.iter().map(|l| format!("{l}")).collect::<Vec<_>>());
+        }
+        if let Some(v) = value.downcast_ref::<Vec<MultiDimLoad>>() {
+            return format!("{:?}", v.iter().map(|l| format!("{l}")).collect::<Vec<_>>());
+        }
+        if let Some(v) = value.downcast_ref::<HashSet<String>>() {
+            let mut v = v.iter().cloned().collect::<Vec<_>>();
+            v.sort();
+            return format!("{v:?}");
+        }
+        if let Some(v) = value.downcast_ref::<HashSet<usize>>() {
+            let mut v = v.iter().cloned().collect::<Vec<_>>();
+            v.sort();
+            return format!("{v:?}");
+        }
+        if let Some(v) = value.downcast_ref::<Option<String>>() {
+            return format!("{v:?}");
+        }
+        "<opaque>".to_string()
+    }
+
+    pub(super) fn digest(index: &Index) -> Vec<(String, String)> {
+        let names = NAMES.lock().unwrap();
+        let mut items = index
+            .iter()
+            .map(|(key, value)| {
+                let name = names.get(key).copied().unwrap_or("<unknown>");
+                let name = name.rsplit("::").next().unwrap_or(name).to_string();
+                (name, render(value.as_ref()))
+            })
+            .collect::<Vec<_>>();
+        items.sort();
+        items
+    }
+}
+
+#[cfg(reinterpretcat_vrp_verif)]
+impl RouteState {
+    /// Verification hook: sorted (key name, rendered value) pairs of all cached route values.
+    pub fn verif_digest(&self) -> Vec<(String, String)> {
+        verif_state::digest(&self.index)
+    }
+}
+
+#[cfg(reinterpretcat_vrp_verif)]
+impl SolutionState {
+    /// Verification hook: sorted (key name, rendered value) pairs of all cached solution values.
+    pub fn verif_digest(&self) -> Vec<(String, String)> {
+        verif_state::digest(&self.index)
     }
 }
